@@ -83,7 +83,7 @@ def run(ck, rng, tier):
     nh = 14 if not thorough else 120
     for hno in range(nh):
         paths = [os.path.join(iodir, "h%d_%d.sqlite3" % (hno, k)) for k in range(rng.randint(1, 2))]
-        L = rng.randint(1, 5)
+        L = rng.randint(1, 5) if hno > 1 else 1
         kinds_on = {}
         for step in range(L):
             p = rng.choice(paths)
@@ -92,6 +92,20 @@ def run(ck, rng, tier):
             mag = 10 ** rng.choice((-9, -3, 0, 0, 3, 9))
             n, m = rng.randint(3, 9), rng.randint(1, 4)
             X = (np.array([[rng.gauss(0, 1) for _ in range(m)] for _ in range(n)]) * mag)
+            if hno == 0 and step == 0:
+                # a stored number NEXT TO the missing-value code: the first column average is 99999999.05 (no data cell is
+                # inside the +-0.1 window of the code)
+                kind, mag = "pca", 1.0
+                kinds_on[p] = kind
+                n = 2 * (n // 2) + 2
+                dev = [rng.choice((-1, 1)) * rng.randint(4, 24) / 8.0 for _ in range(n // 2)]
+                X = np.array([[rng.gauss(0, 1) for _ in range(m)] for _ in range(n)])
+                X[:, 0] = 99999999.05 + np.array(dev + [-d for d in dev])
+            if hno == 1 and step == 0:
+                # the smallest model: one variable, one response, one latent variable (1 x 1 tables)
+                kind, mag, m = "pls", 1.0, 1
+                kinds_on[p] = kind
+                X = np.array([[rng.gauss(0, 1)] for _ in range(n)])
             if kind == "pca":
                 sc = rng.choice((0, 1)) if 1e-2 <= mag <= 1e3 else 0
                 rk = int(np.linalg.matrix_rank(c02.preprocess(X, sc)))
